@@ -252,6 +252,8 @@ class Ctx:
             self.unknowns.append((label, detail))
             ok = False
         for fid, pred in known.items():
+            if any(k[0] == fid for k in self.known):
+                continue          # one confirmed instance of a recorded finding per case is enough
             r2, model2, detail2 = smt.decide(self.pc + [to_bool_term(pred), neg], self.decide_timeout_ms)
             if r2 == 'sat':
                 kv = Violation(label, model2, info, len(self.pc))
